@@ -10,7 +10,7 @@ VERIF = os.path.dirname(os.path.dirname(os.path.abspath(__file__)))
 REPO = os.environ.get("VERIF_REPO", "/repo")
 
 COMMON_ASSUMPTIONS = [
-    "extraction rules E0-E11 (tools/vx) preserve the meaning of the extracted functions; every splice is listed in build/<unit>/<unit>.audit.txt",
+    "extraction rules E0-E14 (tools/vx; E14 = collected iterator pipelines rewritten into accumulator loops as the rustdoc of collect / chain / flat_map / map / filter / copied describes) preserve the meaning of the extracted functions; every splice is listed in build/<unit>/<unit>.audit.txt",
     "E5: raw-pointer element access `*p.add(e)` is modelled as checked indexing X[e] of the Vec the pointer was taken from; the generated bound e < X.len() is exactly the UB condition of the original",
     "E4: assert!/panic!/expect/unwrap are modelled as a diverging vpanic()/vexpect(): panicking is an allowed outcome, message formatting is dropped",
     "usize is 64 bits (global size_of usize == 8)",
